@@ -241,7 +241,10 @@ class _P:
             if c == '0':
                 raise Invalid('\\0')
             n = int(c)
-            # a following digit extends the reference only if such a group exists: keep to single digits here
+            # F&O 5.6.1: the reference is the longest digit sequence that does not exceed the number of groups opened so far
+            while self.peek() is not None and self.peek().isdigit() and self.peek().isascii() and n * 10 + int(self.peek()) <= self.ngroups:
+                n = n * 10 + int(self.peek())
+                self.i += 1
             if n not in self.closed:
                 raise Invalid('back-reference to an open or missing group')
             return ('backref', n)
@@ -470,6 +473,8 @@ def selftest():
     assert bad('\\p{Xx}') and bad('a*?') and bad('\\1') and bad('(?:a)', 'xpath2') and not bad('(?:a)', 'xpath3') and not bad('a*?', 'xpath2') and bad('(a\\1)', 'xpath2') and not bad('(a)\\1', 'xpath2')
     assert found('^a$', 'a') and not found('^a$', 'a\n') and found('^a$', 'b\na\nc', 'm') and not found('^a$', 'b\na\nc') and found('b', 'abc') and found('a.c', 'a\nc', 's') and not found('a.c', 'a\nc')
     assert found('(a)\\1', 'xaay') and not found('(a)\\1', 'xay') and found('A', 'a', 'i') and found('[a-c]', 'B', 'i') and found('a b', 'ab', 'x') and found('a.b', 'a.b', 'q') and not found('a.b', 'axb', 'q')
+    g12 = ''.join('(%s)' % ch for ch in 'abcdefghijkl')
+    assert found('^' + g12 + '\\10$', 'abcdefghijklj') and not found('^' + g12 + '\\10$', 'abcdefghijkla0') and found('^(a)\\10$', 'aa0') and found('^' + g12[:30] + '\\10$', 'abcdefghijj')
     t = parse('a+?', 'xpath2')[0]
     assert search(t, 'aaa')[:2] == (0, 1) and search(parse('a+', 'xpath2')[0], 'aaa')[:2] == (0, 3) and search(parse('a|ab', 'xpath2')[0], 'ab')[:2] == (0, 1)
     assert find_all(parse('a', 'xpath2')[0], 'banana') == [(1, 2), (3, 4), (5, 6)]
